@@ -5,6 +5,21 @@ TRUSTED = []
 ASSUMPTIONS = []
 _FP = {"read_at": "stub_read_at", "do_block": "stub_do_block",
        "destroy": "meta_reader_destroy", "copy": "meta_reader_copy"}
+_FP_DR = {"read_at": "stub_read_at", "do_block": "stub_do_block",
+          "destroy": "data_reader_destroy", "copy": "data_reader_copy"}
+_BS_QUICK = [4096, 131072]
+_BS_ALL = [4096, 8192, 16384, 32768, 65536, 131072, 262144, 524288, 1048576]
+
+def _bs_cases():
+    return [dict(id="bs%d" % b, defines={"BS": b},
+                 tier="quick" if b in _BS_QUICK else "thorough") for b in _BS_ALL]
+
 HARNESSES = [
-    dict(name="meta_seek", file="meta_seek.c", label="proved", fp=_FP, timeout=600),
+    dict(name="meta_seek", file="meta_seek.c", label="proved", fp=_FP, timeout=170,
+         flags=["--arrays-uf-always"]),
+    dict(name="meta_read", file="meta_read.c", label="proved", fp=_FP, timeout=170,
+         loops=["sqfs_meta_reader_read"], defines={"MR_CAP": 1048576},
+         flags=["--arrays-uf-always"]),
+    dict(name="dr_block", file="dr_block.c", label="proved", fp=_FP_DR, timeout=170,
+         malloc_fail=True, flags=["--arrays-uf-always"], cases=_bs_cases()),
 ]
